@@ -6,6 +6,9 @@ namespace Ftdc.Gen.Go
 
 def or (a b : Int) : Int := (BitVec.ofInt 64 a ||| BitVec.ofInt 64 b).toInt
 def and (a b : Int) : Int := (BitVec.ofInt 64 a &&& BitVec.ofInt 64 b).toInt
+/-- reduction to 32 bits, two's complement: what an `int32` holds after arithmetic or a narrowing conversion -/
+def w32 (x : Int) : Int := (BitVec.ofInt 32 x).toInt
+
 def index (l : List Int) (i : Int) : Int := if i < 0 then 0 else l.getD i.toNat 0
 def set (l : List Int) (i : Int) (v : Int) : List Int := if i < 0 then l else l.set i.toNat v
 
